@@ -26,7 +26,7 @@ def main(argv):
     units = []
     for mk in entry["units"]:
         units.extend(u for u in mk(tier) if prop in u.props)
-    extra = entry.get("extra_checks", [])
+    extra = entry.get("standins", [])
     replay_fn = entry.get("replay")
     return vu.run_check(prop, units, tier, seed, level=entry["level"], technique_text=entry["technique"],
                         trusted_base=entry.get("trusted_base", []), replay_fn=replay_fn, extra_checks=extra,
